@@ -60,7 +60,8 @@ class Check(CheckBase):
             '".." / empty segments); prefixes are whole segments, partial segments, empty, beyond every name; payloads around the '
             'stream chunk size; Local is opened through the spellings abs, rel, ./rel, rel/, rel/., a/../rel, ".", "" (cwd inside '
             'the repository). Atomic replace on Local: a reader thread downloads in a loop while a writer alternates two '
-            'self-describing payloads. class = (backend, operation, name class) / (local spelling)')
+            'self-describing payloads, then two writers overwrite the same name at once; B2 is addressed by bucket name or bucket id. '
+            'class = (backend, operation, name class) / (local spelling)')
     assumptions = ['fake S3/B2 implement documented service behaviour (vflib/fakehttp.py) and are part of the trusted base',
                    'B2 file names exclude backslash (documented B2 restriction)']
     case_timeout = 300
